@@ -191,6 +191,7 @@ func (ref *subConnRef) deCallsInc() uint32 {
 	return atomic.AddUint32(&ref.deCalls, 1)
 }
 
+// Must be called holding the balancer mutex lock.
 func (ref *subConnRef) gotResp() {
 	ref.lastResp = time.Now()
 	atomic.StoreUint32(&ref.deCalls, 0)
@@ -516,7 +517,7 @@ func (gb *gcpBalancer) UpdateSubConnState(sc balancer.SubConn, scs balancer.SubC
 			}
 		}
 		scRef.subConn = sc
-		scRef.deCalls = 0
+		atomic.StoreUint32(&scRef.deCalls, 0)
 		scRef.lastResp = time.Now()
 		scRef.refreshing = false
 		scRef.refreshCnt++
